@@ -222,6 +222,12 @@ pub fn run_c16() -> Report {
                 outs.insert(k % (outs.len() + 1), TxOut { value: 5, script: others[k % others.len()].clone() });
                 txs.push(Tx { version: 1, segwit: false, inputs: vec![TxIn::spend([0xee; 32], k as u32)], outputs: outs, locktime: 0 });
             }
+            // one payload beyond 1 MiB (PUSHDATA4), between two ordinary payload outputs
+            txs.push(Tx { version: 1, segwit: false, inputs: vec![TxIn::spend([0xee; 32], 7777)], outputs: vec![
+                TxOut { value: 0, script: script::op_return(b"before the big one") },
+                TxOut { value: 0, script: { let mut s = vec![0x6a]; s.extend(push_with(4, &vec![b'B'; 1_200_000])); s } },
+                TxOut { value: 0, script: script::op_return(b"after the big one") },
+            ], locktime: 0 });
             let per = txs.len() / 3 + 1;
             for chunk in txs.chunks(per) {
                 let h = cb.next_height();
